@@ -466,6 +466,14 @@ def to_fit_range(
         raise ValueError("Fitting range should have 4 or 6 values")
 
 
+def _slice_extent(value: slice) -> int | None:
+    """Return the number of elements selected by a slice, or None if unbounded."""
+    if value.stop is None:
+        return None
+
+    return value.stop - (value.start or 0)
+
+
 def _check_out_fit_ranges(
     target_fit_range: FitRange2D | FitRange3D,
     out_fit_range: FitRange2D | FitRange3D,
@@ -473,16 +481,16 @@ def _check_out_fit_ranges(
     if (
         isinstance(target_fit_range, FitRange3D)
         and isinstance(out_fit_range, FitRange3D)
-        and target_fit_range.time.stop != out_fit_range.time.stop
+        and _slice_extent(target_fit_range.time) != _slice_extent(out_fit_range.time)
     ):
         raise ValueError(
             "Fitting ranges have different lengths in dimension 'readout time'"
         )
 
-    if target_fit_range.row.stop != out_fit_range.row.stop:
+    if _slice_extent(target_fit_range.row) != _slice_extent(out_fit_range.row):
         raise ValueError("Fitting ranges have different lengths in dimension 'y'")
 
-    if target_fit_range.col.stop != out_fit_range.col.stop:
+    if _slice_extent(target_fit_range.col) != _slice_extent(out_fit_range.col):
         raise ValueError("Fitting ranges have different lengths in dimension 'x'")
 
 
